@@ -47,6 +47,14 @@ CHECKS.append({
     "technique": "Coq proof (structural induction over expression trees + decidable per-arm agreement with the reference) + regenerated operator tables + model/implementation correspondence",
 })
 
+CHECKS.append({
+    "property_id": "C10",
+    "text": "Coq theorems over an executable model of the lexer (token_intermediate with all recognisers, TokenStream): for every byte string the token spans are contiguous, ordered, start at 0 and end at the file length (only the synthetic final Endline is empty), every token consumes between 1 and the remaining number of bytes (so |s|+1 steps suffice), and every diagnostic offset lies inside the file; integer accumulation yields exactly the written value or rejects it when it does not fit 64 bits; the reference float conversion is proved (from Flocq's binary_normalize_correct and Bdiv_correct_aux) to be the double nearest to the decimal text, narrowed once for f/h. Four defects were repaired by fix: commits (unchecked digit accumulation, L-suffix wrap, digit-by-digit float rounding, end-of-stream error slice tripping a debug assertion). Token kinds, payload values (float bit patterns) and spans are compared with the implementation on all symbol pairs, thousands of integer/float spellings biased to midpoints and boundaries, and token soups with every trivia form.",
+    "design_ref": "DESIGN.md §4 C10",
+    "note": "Trusted: Coq kernel + Flocq (standard-library real-number axioms under Print Assumptions for the two float theorems), translator, extraction + drivers; hand-written lexer model tied by correspondence; Rust's str::parse::<f64> correct-rounding contract is checked, not proved. 'Value appears unchanged in the output' (formatter Display) is C09's literal round trip.",
+    "technique": "Coq proof (structural bounds on every recogniser, induction over the token stream, Flocq rounding theorems) + regenerated tables + model/implementation correspondence",
+})
+
 _claimed = {c["property_id"] for c in CHECKS}
 NOT_APPLICABLE = [
     {"property_id": p, "reason": "not yet claimed: model/theorems under construction (see DESIGN.md build order); no check registered until it passes on the unchanged tree"}
